@@ -224,14 +224,18 @@ class W:
     def s_pure_with(self):
         n = self.uid()
         lines = ["def pure pf%d(xx%d: Int) -> Int => xx%d + %s" % (n, n, n, self.lit("Int")),
-                 "def wr%d := %s" % (n, self.lit("Int"))]
+                 "def wr%d := %s" % (n, self.lit("Int")), "def wv%d := %s" % (n, self.lit("Int"))]
         k = self.pick(["as", "as_typed", "plain"])
         if k == "as":
-            lines += ["with wr%d as wo%d do" % (n, n), "    def wz%d := pf%d(wo%d)" % (n, n, n)]
+            lines += ["with wr%d as wo%d do" % (n, n), "    def wz%d := pf%d(wo%d) + wv%d" % (n, n, n, n)]
         elif k == "as_typed":
-            lines += ["with wr%d as wo%d: Int do" % (n, n), "    def wz%d := pf%d(wo%d)" % (n, n, n)]
+            lines += ["with wr%d as wo%d: Int do" % (n, n), "    def wz%d := pf%d(wo%d) + wv%d" % (n, n, n, n)]
         else:
-            lines += ["with wr%d do" % n, "    def wz%d := pf%d(wr%d)" % (n, n, n)]
+            lines += ["with wr%d do" % n, "    def wz%d := pf%d(wr%d) + wv%d" % (n, n, n, n)]
+        if self.chance(50):
+            lines = ["class Wc%d" % n, "    def wm%d(self, wp%d: Int) -> Int =>" % (n, n)] + \
+                    ["        " + l for l in lines[1:]] + ["        wp%d" % n]
+            lines = ["def pure pf%d(xx%d: Int) -> Int => xx%d + 1" % (n, n, n)] + lines
         return lines
 
     def s_docstrings(self):
